@@ -413,3 +413,50 @@ def overlap_sq(t1, t2):
         rows.append(np.hstack([xa, za]))
     dim = gf2.rank(np.array(rows)) if rows else 0
     return 2.0 ** (-(n - dim))
+
+
+# ------------------------------------------------------------------------------------------------ fast canonical key (big ints)
+def _rows_to_ints(M):
+    M = np.asarray(M, dtype=np.uint8)
+    if M.shape[1] == 0:
+        return [0] * M.shape[0]
+    packed = np.packbits(M, axis=1, bitorder="little")
+    return [int.from_bytes(packed[i].tobytes(), "little") for i in range(M.shape[0])]
+
+
+def fast_key(t):
+    """canonical key of the group generated by the rows of t; same mathematics as PTab.canonical (reduced echelon form
+    over the columns x_0..x_{n-1}, z_0..z_{n-1} with exact phases), implemented on Python integers for speed."""
+    n, m = t.n, t.m
+    xs, zs, ks = _rows_to_ints(t.X), _rows_to_ints(t.Z), [int(k) for k in t.K]
+    r = 0
+    for c in range(2 * n):
+        if r >= m:
+            break
+        bit = 1 << (c if c < n else c - n)
+        col = xs if c < n else zs
+        p = -1
+        for i in range(r, m):
+            if col[i] & bit:
+                p = i
+                break
+        if p < 0:
+            continue
+        if p != r:
+            xs[r], xs[p] = xs[p], xs[r]
+            zs[r], zs[p] = zs[p], zs[r]
+            ks[r], ks[p] = ks[p], ks[r]
+        xr, zr, kr = xs[r], zs[r], ks[r]
+        for i in range(m):
+            if i != r and (col[i] & bit):
+                ks[i] = (kr + ks[i] + 2 * bin(zr & xs[i]).count("1")) % 4
+                xs[i] ^= xr
+                zs[i] ^= zr
+        r += 1
+    rows = tuple((xs[i], zs[i], ks[i]) for i in range(m) if xs[i] or zs[i])
+    minus_identity = any((not xs[i] and not zs[i]) and ks[i] % 4 for i in range(m))
+    return (n, rows, minus_identity)
+
+
+def same_group_fast(a, b):
+    return a.n == b.n and fast_key(a) == fast_key(b)
